@@ -38,6 +38,7 @@ type Obligation struct {
 	Cover   bool // vacuity query: expected SAT
 	NoQuant bool // model-search variant: quantified assertions dropped
 	Model   string
+	PreNFacts int // cover: number of facts before the assumptions under test
 	Blk     *ssa.BasicBlock
 	Trivial bool
 }
